@@ -248,17 +248,10 @@ func (p *SequencerMempool) Push(ctx context.Context, userTxn *BroadcastedTransac
 	select {
 	case p.dbWriteChan <- userTxn:
 	default:
-		select {
-		case _, ok := <-p.dbWriteChan:
-			if !ok {
-				p.logger.Error("cannot store user transaction in persistent pool, " +
-					"database write channel is closed",
-				)
-			}
-			p.logger.Error("cannot store user transasction in persistent pool, database is full")
-		default:
-			p.logger.Error("cannot store user transasction in persistent pool, database is full")
-		}
+		// The writer is a full channel behind: this transaction is kept in memory only.
+		// (Receiving from the channel here would throw away a transaction that is waiting
+		// to be persisted.)
+		p.logger.Error("cannot store user transasction in persistent pool, database is full")
 	}
 
 	newNode := &memPoolTxn{Txn: *userTxn, Next: nil}
